@@ -10,7 +10,10 @@ RULE = (
     "representable products, and random Q2; all five schemes x NfFF; the nf recorded by a probe on Combiner.__init__ and "
     "the nf visible in the public output (active quark rows of F2_light at LO; beta0 = -T(2,0,1,0)/T(1,0,0,0) at PTO 2) "
     "are compared with the exact-rational reference count; (b) metamorphic: two ZM-VFNS cards with different "
-    "masses/kThr but the same reference nf at the requested Q2 must give bit-identical operators. "
+    "masses/kThr but the same reference nf at the requested Q2 must give bit-identical operators; (c) inactive: in every scheme the rows "
+    "of quark flavours that are neither among the nf light ones nor the massive quark a component is about must be exactly zero in every "
+    "order key (total/light/charm/bottom/top, NC and CC, PTO 0..2); (d) multi-nf: a ZM-VFNS run over points in several nf regions must "
+    "agree key by key (rtol 1e-10, SV keys included) with stand-alone runs of each point. "
     "Distinct = (scheme, NfFF, boundary class, reference nf, observation channel); non-trivial = an nf was actually compared."
 )
 ASSUMPTIONS = ["thresholds are generated in increasing order (eko's Atlas assumes sorted walls)"]
@@ -22,7 +25,7 @@ def budget(tier):
 
 def floor(tier):
     return dict(min_conclusive=60 if tier == "quick" else 1500, min_nontrivial=25,
-                classes=["at", "below", "above", "random", "beta0", "meta"], probes=["combiner_init"], min_compared=100)  # fmt: skip
+                classes=["at", "below", "above", "random", "beta0", "meta", "inactive", "multi-nf"], probes=["combiner_init"], min_compared=100)  # fmt: skip
 
 
 def exact_mass(rng, lo, hi):
@@ -31,7 +34,7 @@ def exact_mass(rng, lo, hi):
 
 
 def cases(tier, rng):
-    n = 140 if tier == "quick" else 4000
+    n = 160 if tier == "quick" else 4000
     out = []
     for i in range(n):
         scheme = cards.pick(rng, ["ZM-VFNS"] * 3 + cards.SCHEMES)
@@ -57,10 +60,39 @@ def cases(tier, rng):
                 q2 = cards.logu(rng, 1.2, 1e4)
             pts.append(dict(Q2=q2, cls=cls))
         mode = "beta0" if rng.random() < (0.12 if tier == "quick" else 0.1) else ("meta" if (scheme == "ZM-VFNS" and rng.random() < 0.4) else "rows")
+        if i % 5 == 4:
+            mode = "inactive"  # rows of flavours the scheme does not treat as active must vanish, all heavynesses / orders
+        elif i % 10 == 3:
+            mode = "multi-nf"  # one run spanning several nf regions vs stand-alone runs (runner-wide state keyed by nf)
+            scheme = "ZM-VFNS"
+            th["FNS"] = scheme
         c = dict(id=f"c06-{i}", mode=mode, theory=th, points=pts, process=cards.pick(rng, ["EM", "NC", "CC"]))
+        if mode == "inactive":
+            c["pto"] = int(cards.pick(rng, [0, 1, 2]))
+            c["kind"] = cards.pick(rng, ["F2", "FL", "F3"])
+            c["points"] = [dict(Q2=cards.logu(rng, 3.0, 3e3), cls="random") for _ in range(2)]
+        if mode == "multi-nf":
+            c["pto"] = int(cards.pick(rng, [1, 2, 2]))
+            c["kind"] = cards.pick(rng, ["F2", "FL", "F3"])
+            # one point in each nf region, in random order
+            reg = [float(np.sqrt(1.2 * walls[0])), float(np.sqrt(walls[0] * walls[1])), float(np.sqrt(walls[1] * walls[2])), float(walls[2] * 1.7)]
+            c["points"] = [dict(Q2=reg[k], cls="random") for k in rng.permutation(4)[: int(rng.integers(2, 5))]]
         if mode == "meta":
-            # second card: different masses and ratios, same number of walls below each Q2 (rescale walls between the Q2 points)
-            c["scale2"] = [float(rng.uniform(0.8, 1.25)) for _ in range(3)]
+            # second card: every matching scale is moved (mass and ratio changed) inside the gap between the requested Q2 values
+            # that surround it, so the number of walls below each Q2 is the same for both cards
+            c["points"] = [dict(Q2=cards.logu(rng, 1.2, 1e4), cls="random") for _ in range(4)]
+            q2s = sorted(p["Q2"] for p in c["points"])
+            new_walls, lo_lim = [], 1.0
+            for w in walls:
+                below = max([q for q in q2s if q < w] + [lo_lim])
+                above = min([q for q in q2s if q >= w] + [w * 4.0])
+                lo, hi = max(below * 1.02, lo_lim * 1.02), above / 1.02
+                nw = float(np.exp(rng.uniform(np.log(lo), np.log(hi)))) if hi > lo else w
+                new_walls.append(nw)
+                lo_lim = nw
+            k2 = [float(cards.pick(rng, [0.5, 1.0, 2.0, 1.5])) for _ in range(3)]
+            c["theory2"] = {f"m{f}": float(np.sqrt(nw) / k) for f, nw, k in zip("cbt", new_walls, k2)}
+            c["theory2"].update({f"k{f}Thr": k for f, k in zip("cbt", k2)})
         out.append(c)
     return out
 
@@ -83,7 +115,77 @@ def _probe():
     return log, lambda: setattr(cf.Combiner, "__init__", orig)
 
 
+def run_inactive(case):
+    """Rows of quark flavours that are neither light (<= nf) nor the massive quark a component is about must be exactly zero."""
+    th = cards.theory(PTO=case["pto"], RenScaleVar=True, FactScaleVar=True, **case["theory"])
+    proc = case["process"]
+    xg = cards.grid(5, 4, x_min=1e-3)
+    pts = [dict(x=xg[3] * 1.1, Q2=p["Q2"]) for p in case["points"]]
+    names = [f"{case['kind']}_{h}" for h in ("total", "light", "charm", "bottom", "top")]
+    ob = cards.observables({n: pts for n in names}, xgrid=xg, deg=2, prDIS=proc, ProjectileDIS="neutrino" if proc == "CC" else "electron")
+    out = run.run(th, ob)
+    massive = nfref.massive_quarks(th)
+    HQ = {"charm": 4, "bottom": 5, "top": 6}
+    viol, nontrivial = [], set()
+    compared = 0
+    sample = None
+    for n in names:
+        h = n.split("_")[1]
+        for p, res in zip(case["points"], out[n]):
+            nf = nfref.nf_light(th, p["Q2"])
+            allowed = set(range(1, nf + 1))
+            if h == "total":
+                allowed |= set(massive)
+            elif h in HQ and HQ[h] in massive:
+                allowed.add(HQ[h])
+            if h in HQ and HQ[h] not in massive and HQ[h] > nf:
+                allowed = set()  # the flavour is neither light nor massive here: nothing contributes
+            for key, (val, _e) in res.orders.items():
+                val = np.asarray(val)
+                for q in range(1, 7):
+                    if q in allowed:
+                        continue
+                    rows = val[[run.pid_index(q), run.pid_index(-q)]]
+                    compared += rows.size
+                    if np.any(rows != 0):
+                        viol.append(dict(sig=f"inactive-flavour-row|{th['FNS']}|{h}|{proc}", what=f"{n} {proc} {th['FNS']} NfFF={th['NfFF']} PTO={th['PTODIS']} Q2={p['Q2']:.5g}: quark flavour {q} is neither one of the {nf} light flavours nor the massive quark of this component, but its rows are non-zero in order {run.key(key)} (max {run.absmax(rows):.3g})"))
+                        break
+            if any(run.absmax(v[0]) > 0 for v in res.orders.values()):
+                nontrivial.add(f"{th['FNS']}|NfFF{th['NfFF']}|inactive|{h}|{proc}|pto{th['PTODIS']}")
+            if sample is None:
+                sample = dict(obs=n, scheme=th["FNS"], NfFF=th["NfFF"], nf=nf, allowed_flavours=sorted(allowed))
+    return dict(violations=viol, compared=compared, nontrivial=sorted(nontrivial), classes=["inactive"], probes=dict(combiner_init=1), sample=sample)
+
+
+def run_multinf(case):
+    """One runner over points in several nf regions vs one stand-alone run per point: every order key must agree (rtol 1e-10)."""
+    th = cards.theory(PTO=case["pto"], RenScaleVar=True, FactScaleVar=True, **case["theory"])
+    proc = case["process"]
+    xg = cards.grid(6, 5, x_min=1e-3)
+    name = f"{case['kind']}_total"
+    pts = [dict(x=xg[4] * 1.07, Q2=p["Q2"]) for p in case["points"]]
+    mk = lambda pl: cards.observables({name: pl}, xgrid=xg, deg=3, prDIS=proc, ProjectileDIS="neutrino" if proc == "CC" else "electron")  # noqa: E731
+    joint = run.run(th, mk(pts))
+    viol, nontrivial = [], set()
+    compared = 0
+    for i, p in enumerate(pts):
+        alone = run.run(th, mk([p]))[name][0]
+        m, n, nz, worst = run.cmp_results(joint[name][i], [(1.0, alone)], 1e-10)
+        compared += n
+        nf = nfref.nf_light(th, p["Q2"])
+        if nz:
+            nontrivial.add(f"multi-nf|nf{nf}|{case['kind']}|{proc}|pto{th['PTODIS']}")
+        if m > 1:
+            viol.append(dict(sig=f"nf-crosstalk|{case['kind']}", what=f"{name} {proc} ZM-VFNS PTO={th['PTODIS']}: the point Q2={p['Q2']:.5g} (nf={nf}) computed together with points of other nf regions ({[round(q['Q2'],3) for q in pts]}) differs from the stand-alone run: {worst}"))
+    return dict(violations=viol, compared=compared, nontrivial=sorted(nontrivial), classes=["multi-nf"], probes=dict(combiner_init=1),
+                sample=dict(obs=name, Q2s=[p["Q2"] for p in pts], nfs=[nfref.nf_light(th, p["Q2"]) for p in pts]))  # fmt: skip
+
+
 def run_case(case):
+    if case["mode"] == "inactive":
+        return run_inactive(case)
+    if case["mode"] == "multi-nf":
+        return run_multinf(case)
     th0 = case["theory"]
     mode = case["mode"]
     pto = 2 if mode == "beta0" else (1 if mode == "meta" else 0)
@@ -149,15 +251,10 @@ def run_case(case):
                 viol.append(dict(sig=f"nf-beta0-tensor|{th['FNS']}", what=f"(2,0,1,0) != -beta0(nf={ref})*(1,0,0,0): max dev {d:.3g}"))
     if mode == "meta":
         # second ZM card with other masses / ratios but the same count at every requested Q2
-        s = case["scale2"]
         th2 = dict(th)
-        ok = True
-        for f, sc in zip("cbt", s):
-            th2["m" + f] = th["m" + f] * sc
-            th2["k" + f + "Thr"] = th["k" + f + "Thr"] * float(np.sqrt(1.0 / sc)) if False else th["k" + f + "Thr"]
+        th2.update(case["theory2"])
         walls2 = [(th2["m" + f] * th2["k" + f + "Thr"]) for f in "cbt"]
-        if not (walls2[0] < walls2[1] < walls2[2]):
-            ok = False
+        ok = walls2[0] < walls2[1] < walls2[2]
         same = ok and all(nfref.nf_light(th, p["Q2"]) == nfref.nf_light(th2, p["Q2"]) for p in case["points"])
         if same:
             out2 = run.run(th2, ob)
